@@ -5,7 +5,8 @@ Driver entries for C12 (beliefs instantiated symbolically: `Sym`).
 
   fault <class> <seed> <n> <m> <k> <sub> fz=<bits> me=<bits> pr=<bits> in=<bits> no=<bits> li=<bits>
      class: kf | ukfa | ukfg | sukf | glik | bootg | boots | gpf-<kf|ukfa|ukfg|sukf>-<g|s>
-     optional trailing token reps=<r>: r successive calls on the same object
+     optional trailing token reps=<r>: r successive calls on the same object (scripts consumed across calls),
+     or ep=<e0>/<e1>/…: one call per epoch, the methods named in e_i unavailable during that whole call
      -> r0:<pred|full|partial|none|some>:<me1,pr0,…|-> r1:…
   fault sis-<bootg|boots> <seed> <n> <m> <k> <steps> fz=… …
      -> s0:<pred|corrected|normpred>:<calls> s1:…
@@ -78,16 +79,40 @@ def repeatCalls (f : Script → String × String × Script) : Nat → Nat → Sc
     let (lab, log, s') := f s
     ("r" ++ toString i ++ ":" ++ lab ++ ":" ++ log) :: repeatCalls f fuel (i + 1) s'
 
+/-- An epoch `e` (`-` or a concatenation of method codes) as a script: the named methods answer
+    "unavailable" at every call of that epoch (64 scripted answers; no class asks that often). -/
+def epochScript (e : String) : Option Script :=
+  let codes : List String := if e == "-" then [] else
+    (List.range (e.length / 2)).map fun i => ((e.drop (2 * i)).take 2).toString
+  if e != "-" && (e.length % 2 != 0 || e.length == 0) then none
+  else if codes.all (fun c => ["fz", "me", "pr", "in", "no", "li"].contains c) then
+    let un (c : String) : List Bool := if codes.contains c then List.replicate 64 false else []
+    some { freeze := un "fz", measure := un "me", predicted := un "pr", innovation := un "in", noise := un "no", lik := un "li" }
+  else none
+
+def parseEpochs (t : String) : Option (List Script) :=
+  ((t.drop 3).toString.splitOn "/").mapM epochScript
+
+def epochCalls (f : Script → String × String × Script) : Nat → List Script → List String
+  | _, [] => []
+  | i, s :: ss =>
+    let (lab, log, _) := f s
+    ("r" ++ toString i ++ ":" ++ lab ++ ":" ++ log) :: epochCalls f (i + 1) ss
+
 def faultLine : P String := do
   let cls ← tok
   let _ ← nat; let _ ← nat; let m ← nat; let k ← nat; let sub ← nat
   let s ← readScript
   let rest ← get
-  let reps ← match rest with
-    | [] => pure 1
+  let (reps, epochs) ← match rest with
+    | [] => pure (1, ([] : List Script))
     | [t] => (if t.startsWith "reps=" then
                 match (t.drop 5).toString.toNat? with
-                | some r => pure r
+                | some r => pure (r, [])
+                | none => failure
+              else if t.startsWith "ep=" then
+                match parseEpochs t with
+                | some es => pure (es.length, es)
                 | none => failure
               else failure)
     | _ => failure
@@ -95,7 +120,8 @@ def faultLine : P String := do
   if sub == 0 then failure
   let sym (f : Script → FR Sym) : Script → String × String × Script :=
     fun s => let r := f s; (symLabel r.val, logStr r.log, r.script)
-  let go (f : Script → String × String × Script) : P String := pure (join (repeatCalls f reps 0 s))
+  let go (f : Script → String × String × Script) : P String :=
+    pure (join (if epochs.isEmpty then repeatCalls f reps 0 s else epochCalls f 0 epochs))
   match cls.splitOn "-" with
   | ["glik"] =>
     go (fun s => let r := gaussLik () s; ((if r.val.isSome then "some" else "none"), logStr r.log, r.script))
@@ -107,7 +133,9 @@ def faultLine : P String := do
     | _, _ => failure
   | ["sis", b] =>
     match (if b == "bootg" then likOf "g" .boot else if b == "boots" then likOf "s" .boot else none) with
-    | some lk => pure (join (sisSteps lk sub 0 s))
+    | some lk =>
+      if epochs.isEmpty then pure (join (sisSteps lk sub 0 s))
+      else pure (join ((epochs.zipIdx).flatMap fun (es, i) => sisSteps lk 1 i es))
     | none => failure
   | [c] =>
     match gaussOf c m k sub with
